@@ -42,7 +42,7 @@ type Engine struct {
 	escCache    map[*ssa.Alloc]bool
 	loopCache   map[*ssa.Function]map[*ssa.BasicBlock]int
 	loopTexts   map[*ssa.Function][]string
-	nameCache   map[*ssa.Function]map[string]ssa.Value
+	nameCache   map[*ssa.Function]map[string]nameRef
 	syntax      map[*ssa.Function]ast.Node
 	cg          *callgraph.Graph
 	reachEvent  map[*ssa.Function]bool
@@ -55,7 +55,7 @@ type Engine struct {
 var repoPkgPaths = []string{"gorm.io/gorm", "gorm.io/gorm/clause", "gorm.io/gorm/callbacks", "gorm.io/gorm/schema", "gorm.io/gorm/utils", "gorm.io/gorm/migrator"}
 
 func newEngine(repo, verif string, overlay map[string][]byte) (*Engine, error) {
-	e := &Engine{repo: repo, verif: verif, typeIDs: map[string]int{}, typeByID: map[int]types.Type{}, strIDs: map[string]int{}, funcIDs: map[*ssa.Function]int{}, funcByShort: map[string]*ssa.Function{}, globals: map[*ssa.Global]int{}, ifaces: map[string]types.Type{}, escCache: map[*ssa.Alloc]bool{}, loopCache: map[*ssa.Function]map[*ssa.BasicBlock]int{}, loopTexts: map[*ssa.Function][]string{}, nameCache: map[*ssa.Function]map[string]ssa.Value{}, pureCache: map[*ssa.Function]bool{}, syntax: map[*ssa.Function]ast.Node{}, spkgs: map[string]*ssa.Package{}}
+	e := &Engine{repo: repo, verif: verif, typeIDs: map[string]int{}, typeByID: map[int]types.Type{}, strIDs: map[string]int{}, funcIDs: map[*ssa.Function]int{}, funcByShort: map[string]*ssa.Function{}, globals: map[*ssa.Global]int{}, ifaces: map[string]types.Type{}, escCache: map[*ssa.Alloc]bool{}, loopCache: map[*ssa.Function]map[*ssa.BasicBlock]int{}, loopTexts: map[*ssa.Function][]string{}, nameCache: map[*ssa.Function]map[string]nameRef{}, pureCache: map[*ssa.Function]bool{}, syntax: map[*ssa.Function]ast.Node{}, spkgs: map[string]*ssa.Package{}}
 	cs, used, err := loadContracts(repo, verif)
 	if err != nil {
 		return nil, fmt.Errorf("contracts: %v", err)
@@ -449,20 +449,25 @@ func (e *Engine) nodeText(from, to token.Pos) string {
 	return normSpace(t)
 }
 
-// sourceNames maps source-level variable names to SSA values (via DebugRef and Alloc comments).
-func (e *Engine) sourceNames(fn *ssa.Function) map[string]ssa.Value {
+// sourceNames maps source-level variable names to SSA values: either the cell (Alloc) that
+// holds an address-taken variable, or the register value seen by a DebugRef.
+type nameRef struct {
+	val  ssa.Value
+	cell bool
+}
+
+func (e *Engine) sourceNames(fn *ssa.Function) map[string]nameRef {
 	if m, ok := e.nameCache[fn]; ok {
 		return m
 	}
-	m := map[string]ssa.Value{}
-	multi := map[string]bool{}
+	m := map[string]nameRef{}
 	for _, b := range fn.Blocks {
 		for _, ins := range b.Instrs {
 			switch i := ins.(type) {
 			case *ssa.Alloc:
-				if i.Comment != "" && !strings.Contains(i.Comment, " ") && !strings.HasPrefix(i.Comment, "new") && !strings.HasPrefix(i.Comment, "complit") && !strings.HasPrefix(i.Comment, "varargs") && !strings.HasPrefix(i.Comment, "slicelit") && !strings.HasPrefix(i.Comment, "makeslice") {
-					m[i.Comment] = i
-					multi[i.Comment] = true // allocs win
+				c := i.Comment
+				if c != "" && !strings.Contains(c, " ") && !strings.Contains(c, ".") && c != "new" && c != "complit" && c != "varargs" && c != "slicelit" && c != "makeslice" && c != "selectres" {
+					m[c] = nameRef{i, true}
 				}
 			}
 		}
@@ -474,17 +479,13 @@ func (e *Engine) sourceNames(fn *ssa.Function) map[string]ssa.Value {
 				if !ok {
 					continue
 				}
-				if _, isAlloc := m[id.Name].(*ssa.Alloc); isAlloc {
-					continue
-				}
-				if old, seen := m[id.Name]; seen && old != d.X {
-					// several SSA values for one name: keep the first definition (dominating) one
+				if old, seen := m[id.Name]; seen && (old.cell || old.val != d.X) {
 					continue
 				}
 				if _, isConst := d.X.(*ssa.Const); isConst {
 					continue
 				}
-				m[id.Name] = d.X
+				m[id.Name] = nameRef{d.X, false}
 			}
 		}
 	}
